@@ -1,10 +1,11 @@
 package gmtls
 
 import (
-	"crypto"
 	"crypto/ecdsa"
 	"crypto/rand"
+	"crypto/rsa"
 	"crypto/x509/pkix"
+	"encoding/asn1"
 	"encoding/pem"
 	"errors"
 	"math/big"
@@ -20,7 +21,7 @@ func zzKPPemDecode(data []byte) (*pem.Block, []byte) {
 	if len(data) < 2 {
 		return nil, data
 	}
-	typ := map[byte]string{1: "CERTIFICATE", 2: "PRIVATE KEY", 3: "EC PARAMETERS"}[data[0]]
+	typ := map[byte]string{1: "CERTIFICATE", 2: "PRIVATE KEY", 3: "EC PARAMETERS", 4: "EC PRIVATE KEY"}[data[0]]
 	return &pem.Block{Type: typ, Bytes: []byte{data[1]}}, data[2:]
 }
 
@@ -34,14 +35,34 @@ func zzKPParseCert(der []byte) (*x509.Certificate, error) {
 	return &x509.Certificate{Raw: der, PublicKeyAlgorithm: x509.ECDSA,
 		PublicKey: &ecdsa.PublicKey{Curve: sm2.P256Sm2(), X: big.NewInt(zzKPCoord[der[0]]), Y: big.NewInt(zzKPCoord[der[0]] + 1)}}, nil
 }
-func zzKPParsePriv(der []byte) (crypto.PrivateKey, error) {
-	if der[0] == 0xEE {
-		return nil, errors.New("zz: malformed key")
-	}
+
+// the parsers parsePrivateKey tries, by their contracts for an SM2 key: DER byte = pair id, with
+// the top bit set for the SEC1 ("EC PRIVATE KEY") form, clear for PKCS#8; the standard
+// library's parsers know neither RSA structure nor the SM2 curve in it
+func zzKPKey(id byte) *sm2.PrivateKey {
 	k := new(sm2.PrivateKey)
 	k.Curve = sm2.P256Sm2()
-	k.D, k.X, k.Y = big.NewInt(1), big.NewInt(zzKPCoord[der[0]]), big.NewInt(zzKPCoord[der[0]]+1)
-	return k, nil
+	k.D, k.X, k.Y = big.NewInt(1), big.NewInt(zzKPCoord[id]), big.NewInt(zzKPCoord[id]+1)
+	return k
+}
+func zzKPStdPKCS1(der []byte) (*rsa.PrivateKey, error) { return nil, errors.New("zz: not PKCS#1") }
+func zzKPStdPKCS8(der []byte) (interface{}, error) {
+	return nil, errors.New("zz: x509: unknown elliptic curve")
+}
+func zzKPStdEC(der []byte) (*ecdsa.PrivateKey, error) {
+	return nil, errors.New("zz: x509: unknown elliptic curve")
+}
+func zzKPGmPKCS8(der []byte) (*sm2.PrivateKey, error) {
+	if der[0] == 0xEE || der[0]&0x80 != 0 {
+		return nil, errors.New("zz: not an SM2 PKCS#8 key")
+	}
+	return zzKPKey(der[0]), nil
+}
+func zzKPGmSEC1(der []byte) (*sm2.PrivateKey, error) {
+	if der[0] == 0xEE || der[0]&0x80 == 0 {
+		return nil, errors.New("zz: not a SEC1 key")
+	}
+	return zzKPKey(der[0] & 0x7f), nil
 }
 
 // H14-keypair: the TLS key-pair loaders accept PEM certificate(s) and key(s) exactly when each
@@ -50,15 +71,20 @@ func zzKPParsePriv(der []byte) (crypto.PrivateKey, error) {
 //
 //verif:property C14
 //verif:expect-reach end accepted rejected
-//verif:bound SM2 pairs; per pair the key matches / belongs to another certificate / is malformed; symbolic run: PEM decoding, certificate and key parsing replaced by scripted models (an SM2 certificate parses to an *ecdsa.PublicKey on the SM2 curve, as the x509 package does); natively real SM2 keys, self-signed certificates and PEM
+//verif:bound SM2 pairs with the key in PKCS#8 ("PRIVATE KEY") or SEC1 ("EC PRIVATE KEY") form; per pair the key matches / belongs to another certificate / is malformed; symbolic run: PEM decoding, certificate and key parsing replaced by scripted models (an SM2 certificate parses to an *ecdsa.PublicKey on the SM2 curve, as the x509 package does); natively real SM2 keys, self-signed certificates and PEM
 //verif:outside PEM/DER parsing themselves (C18); RSA and NIST-curve pairs (standard library code paths)
 //verif:stub-symbolic encoding/pem.Decode zzKPPemDecode
 //verif:stub-symbolic github.com/tjfoc/gmsm/x509.ParseCertificate zzKPParseCert
-//verif:stub-symbolic github.com/tjfoc/gmsm/gmtls.parsePrivateKey zzKPParsePriv
+//verif:stub-symbolic crypto/x509.ParsePKCS1PrivateKey zzKPStdPKCS1
+//verif:stub-symbolic crypto/x509.ParsePKCS8PrivateKey zzKPStdPKCS8
+//verif:stub-symbolic crypto/x509.ParseECPrivateKey zzKPStdEC
+//verif:stub-symbolic github.com/tjfoc/gmsm/x509.ParsePKCS8UnecryptedPrivateKey zzKPGmPKCS8
+//verif:stub-symbolic github.com/tjfoc/gmsm/x509.ParseSm2PrivateKey zzKPGmSEC1
 //verif:unwind 100
 func zzH_c14_keypair_loaders() {
 	loader := vChoice("loader", 3)
 	sigKey, encKey := vChoice("signingKey", 3), vChoice("encryptionKey", 3) // 0 matches, 1 other pair's key, 2 malformed
+	sec1 := vChoice("keyForm", 2) == 1                                      // PKCS#8 "PRIVATE KEY" or SEC1 "EC PRIVATE KEY"
 	var sc, sk, ec, ek []byte
 	if vNative() {
 		mk := func(cn string) ([]byte, []byte, []byte) {
@@ -67,6 +93,19 @@ func zzH_c14_keypair_loaders() {
 				NotBefore: time.Unix(1600000000, 0), NotAfter: time.Unix(1900000000, 0), SignatureAlgorithm: x509.SM2WithSM3}
 			cp, _ := x509.CreateCertificateToPem(t, t, &k.PublicKey, k)
 			kp, _ := x509.WritePrivateKeyToPem(k, nil)
+			if sec1 {
+				// the ECPrivateKey structure inside the PKCS#8 wrapping, under its own PEM label
+				blk, _ := pem.Decode(kp)
+				var p8 struct {
+					Version    int
+					Algo       pkix.AlgorithmIdentifier
+					PrivateKey []byte
+				}
+				if _, err := asn1.Unmarshal(blk.Bytes, &p8); err != nil {
+					panic(err)
+				}
+				kp = pem.EncodeToMemory(&pem.Block{Type: "EC PRIVATE KEY", Bytes: p8.PrivateKey})
+			}
 			return cp, kp, nil
 		}
 		var k1, k2 []byte
@@ -94,7 +133,17 @@ func zzH_c14_keypair_loaders() {
 			return 0xEE
 		}
 		sc, ec = []byte{1, 0x51}, []byte{1, 0x52}
-		sk, ek = []byte{2, der(sigKey, 0x51, 0x52)}, []byte{2, der(encKey, 0x52, 0x51)}
+		form, label := byte(0), byte(2)
+		if sec1 {
+			form, label = 0x80, 4
+		}
+		mark := func(id byte) byte {
+			if id == 0xEE {
+				return id
+			}
+			return id | form
+		}
+		sk, ek = []byte{label, mark(der(sigKey, 0x51, 0x52))}, []byte{label, mark(der(encKey, 0x52, 0x51))}
 	}
 	var err error
 	want := sigKey == 0
